@@ -176,6 +176,7 @@ func (s *TunnelServiceHandler) openReverseTunnel(stream tunnelpb.TunnelService_O
 
 	verifYield("handler.reverse.betweenAdds")
 	rc := s.reverseChannelsForKey(key)
+	verifYield("handler.reverse.beforeKeyAdd")
 	rc.add(ch, key)
 	defer rc.remove(ch)
 
